@@ -144,7 +144,7 @@ func bloomCase(c *Ctx, cfg bloomCfg, caseNo int) {
 		g.Insert(e)
 		a, err := bloomAbs(g, cfg.redis)
 		if err != nil {
-			c.fail([]string{"C01"}, "bloom-export", fmt.Sprintf("export failed: %v", err), cfg.String())
+			c.fail(bloomExportProps(cfg), "bloom-export", fmt.Sprintf("export failed: %v", err), cfg.String())
 			return
 		}
 		probes[j] = a.Bits
@@ -188,10 +188,21 @@ func bloomCase(c *Ctx, cfg bloomCfg, caseNo int) {
 	mayAttach := cfg.redis && f.GetMetadataKey() != ""
 	var snapDoc, snapImg []byte
 	var snapInserted map[int]bool
+	attachFailed := false
 	attach := func() {
-		if g, err := gostatix.NewRedisBloomFilterFromKey(f.GetMetadataKey()); err == nil && g != nil && g.GetCap() == f.GetCap() {
+		g, err := gostatix.NewRedisBloomFilterFromKey(f.GetMetadataKey())
+		if err == nil && g != nil && g.GetCap() == f.GetCap() && g.GetNumHashes() == f.GetNumHashes() {
 			handles = append(handles, g)
 			c.branch("attached-handle")
+			return
+		}
+		if !attachFailed {
+			attachFailed = true
+			got := "no handle"
+			if g != nil {
+				got = fmt.Sprintf("size %d, %d hashes", g.GetCap(), g.GetNumHashes())
+			}
+			c.fail([]string{"C09", "C01"}, "bloom-attach-differs", fmt.Sprintf("%s: a handle attached from the metadata key of a live filter (size %d, %d hashes): error %v, %s", cfg, f.GetCap(), f.GetNumHashes(), err, got), cfg.String())
 		}
 	}
 	if mayAttach && caseNo%3 != 0 {
@@ -293,7 +304,7 @@ func bloomCase(c *Ctx, cfg bloomCfg, caseNo int) {
 		via := handles[c.rng.Intn(len(handles))]
 		pre, err := bloomAbs(f, cfg.redis)
 		if err != nil {
-			c.fail([]string{"C01"}, "bloom-export", fmt.Sprintf("export failed: %v", err), cfg.String())
+			c.fail(bloomExportProps(cfg), "bloom-export", fmt.Sprintf("export failed: %v", err), cfg.String())
 			return
 		}
 		switch r := c.rng.Intn(10); {
@@ -407,6 +418,15 @@ func bloomHuge(c *Ctx, props []string) {
 	f = nil
 	runtime.GC()
 	debug.FreeOSMemory()
+}
+
+// a Redis-backed filter whose state cannot be read back is also not "fully described by what Redis
+// holds" (C09) and does not answer like its in-memory twin (C08)
+func bloomExportProps(cfg bloomCfg) []string {
+	if cfg.redis {
+		return []string{"C01", "C09", "C08"}
+	}
+	return []string{"C01"}
 }
 
 // eqU64sub: are all of the given bits set in the filter?
